@@ -7,9 +7,29 @@ pub type Mod0 = rustpython_parser::ast::Mod;
 
 pub uninterp spec fn parse_ok(src: Seq<char>) -> bool;
 pub uninterp spec fn ast_of(src: Seq<char>) -> Mod0;
-/// definitions / usages the visitors record for one top-level statement of `file` with text `src`
-pub uninterp spec fn vdefs(stmt: Stmt0, file: PV, src: Seq<char>) -> Seq<DefV>;
-pub uninterp spec fn vuses(stmt: Stmt0, file: PV, src: Seq<char>) -> Seq<UseV>;
+/// definitions / usages the visitors record for one top-level statement of `file` with text `src`: the operational
+/// specification of visit_stmt (prelude/visit_spec.rs, PROVED for the real visitors in unit visit) at the line index
+/// of the text
+pub open spec fn vdefs(stmt: Stmt0, file: PV, src: Seq<char>) -> Seq<DefV> { visit_defs(stmt, file, src, src_line_index(src)) }
+pub open spec fn vuses(stmt: Stmt0, file: PV, src: Seq<char>) -> Seq<UseV> { visit_uses(stmt, file, src, src_line_index(src)) }
+/// precondition of visit_stmt for every top-level statement (A8: the string literals of decorator marks end at a
+/// column >= 1 of the line index of the text they were parsed from -- a fact about the parser's ranges)
+pub open spec fn module_pre(body: Seq<Stmt0>, li: Seq<usize>) -> bool {
+    forall|i: int| 0 <= i < body.len() ==> visit_pre(#[trigger] body[i], li)
+}
+pub proof fn lemma_stmts_vdefs_len_mono(body: Seq<Stmt0>, i: int, file: PV, src: Seq<char>)
+    requires 0 <= i <= body.len(),
+    ensures stmts_vdefs(body.take(i), file, src).len() <= stmts_vdefs(body, file, src).len(),
+    decreases body.len() - i
+{
+    if i < body.len() {
+        lemma_stmts_vdefs_len_mono(body, i + 1, file, src);
+        let t1 = body.take(i + 1);
+        assert(t1.drop_last() =~= body.take(i));
+    } else {
+        assert(body.take(i) =~= body);
+    }
+}
 
 pub open spec fn body_of(m: Mod0) -> Seq<Stmt0> {
     match m { rustpython_parser::ast::Mod::Module(mm) => mm.body@, _ => Seq::<Stmt0>::empty() }
